@@ -1,6 +1,7 @@
 package decoders
 
 import (
+	"bytes"
 	"context"
 	"errors"
 	"fmt"
@@ -13,6 +14,27 @@ import (
 )
 
 //go:generate go run github.com/vektra/mockery/v2@v2.22.1 --inpackage --name=Decoder --filename=mock_decoder.go
+
+// readBody reads exactly size bytes of ammo payload.
+// Size comes from ammo file, so it can be negative or absurdly large: big payloads are read
+// by chunks, so that memory is allocated only for data, that really exists in ammo file.
+func readBody(r io.Reader, size int) (body []byte, n int, err error) {
+	if size < 0 {
+		return nil, 0, fmt.Errorf("negative payload size: %d", size)
+	}
+	const maxPrealloc = 1 << 20
+	if size <= maxPrealloc {
+		body = make([]byte, size)
+		n, err = io.ReadFull(r, body)
+		return body, n, err
+	}
+	var buf bytes.Buffer
+	read, err := io.CopyN(&buf, r, int64(size))
+	if err == io.EOF && read > 0 {
+		err = io.ErrUnexpectedEOF
+	}
+	return buf.Bytes(), int(read), err
+}
 
 func filePosition(file io.ReadSeeker) (position int64) {
 	position, _ = file.Seek(0, io.SeekCurrent)
